@@ -256,9 +256,14 @@ package sfnt
 // key, in the subset.  The GSUB/GPOS/GDEF steps are assumed to keep the
 // subsetter's glyph list a bijection inside the font's glyph range; the
 // outline steps are under their own contracts.
-//@ assume func (s *subsetter) SubsetGsub(old *gtab.Info) (res *gtab.Info)
+// SubsetGsub: a panics-only contract - the ONLY thing checked is whether one
+// of its explicit panic("not implemented") statements can be reached (it can:
+// open known finding F43); what callers use (the subsetter's glyph list stays
+// a bijection inside the font's glyph range) is still assumed.
+//@ func (s *subsetter) SubsetGsub(old *gtab.Info) (res *gtab.Info)   props: C10
+//@   opt only=panics
 //@   requires bij(s)
-//@   ensures bij(s) && len(s.glyphs) >= old(len(s.glyphs))
+//@   ensures_assumed bij(s) && len(s.glyphs) >= old(len(s.glyphs))
 //@   modifies s.*, s.newGid[*], allelems(glyph.ID)
 // SubsetGpos: every lookup keeps its place in the list; for a pair adjustment
 // subtable the pairs of retained glyphs are stored under their NEW glyph
